@@ -16,14 +16,14 @@ struct verif_atomic {
 	constexpr verif_atomic(T v) noexcept : a(v) {}
 	verif_atomic(const verif_atomic &) = delete;
 	verif_atomic &operator=(const verif_atomic &) = delete;
-	T load(std::memory_order mo = std::memory_order_seq_cst) const { dsched::point(); T v = a.load(mo); hb.on_load(mo); return v; }
-	void store(T v, std::memory_order mo = std::memory_order_seq_cst) { dsched::point(); hb.on_store(mo); a.store(v, mo); }
-	T exchange(T v, std::memory_order mo = std::memory_order_seq_cst) { dsched::point(); hb.on_rmw(mo); return a.exchange(v, mo); }
-	T fetch_add(T v, std::memory_order mo = std::memory_order_seq_cst) { dsched::point(); hb.on_rmw(mo); return a.fetch_add(v, mo); }
-	T fetch_sub(T v, std::memory_order mo = std::memory_order_seq_cst) { dsched::point(); hb.on_rmw(mo); return a.fetch_sub(v, mo); }
-	T fetch_or(T v, std::memory_order mo = std::memory_order_seq_cst) { dsched::point(); hb.on_rmw(mo); return a.fetch_or(v, mo); }
-	T fetch_and(T v, std::memory_order mo = std::memory_order_seq_cst) { dsched::point(); hb.on_rmw(mo); return a.fetch_and(v, mo); }
-	T fetch_xor(T v, std::memory_order mo = std::memory_order_seq_cst) { dsched::point(); hb.on_rmw(mo); return a.fetch_xor(v, mo); }
+	T load(std::memory_order mo = std::memory_order_seq_cst) const { dsched::point(); T v = a.load(mo); hb.on_load(mo); vclock::mirror_read(&a, mo); return v; }
+	void store(T v, std::memory_order mo = std::memory_order_seq_cst) { dsched::point(); hb.on_store(mo); vclock::mirror_write(&a, mo); a.store(v, mo); }
+	T exchange(T v, std::memory_order mo = std::memory_order_seq_cst) { dsched::point(); hb.on_rmw(mo); vclock::mirror_write(&a, mo); T r = a.exchange(v, mo); vclock::mirror_read(&a, mo); return r; }
+	T fetch_add(T v, std::memory_order mo = std::memory_order_seq_cst) { dsched::point(); hb.on_rmw(mo); vclock::mirror_write(&a, mo); T r = a.fetch_add(v, mo); vclock::mirror_read(&a, mo); return r; }
+	T fetch_sub(T v, std::memory_order mo = std::memory_order_seq_cst) { dsched::point(); hb.on_rmw(mo); vclock::mirror_write(&a, mo); T r = a.fetch_sub(v, mo); vclock::mirror_read(&a, mo); return r; }
+	T fetch_or(T v, std::memory_order mo = std::memory_order_seq_cst) { dsched::point(); hb.on_rmw(mo); vclock::mirror_write(&a, mo); T r = a.fetch_or(v, mo); vclock::mirror_read(&a, mo); return r; }
+	T fetch_and(T v, std::memory_order mo = std::memory_order_seq_cst) { dsched::point(); hb.on_rmw(mo); vclock::mirror_write(&a, mo); T r = a.fetch_and(v, mo); vclock::mirror_read(&a, mo); return r; }
+	T fetch_xor(T v, std::memory_order mo = std::memory_order_seq_cst) { dsched::point(); hb.on_rmw(mo); vclock::mirror_write(&a, mo); T r = a.fetch_xor(v, mo); vclock::mirror_read(&a, mo); return r; }
 	T operator++() { return fetch_add(1) + 1; }
 	T operator++(int) { return fetch_add(1); }
 	T operator--() { return fetch_sub(1) - 1; }
@@ -33,12 +33,15 @@ struct verif_atomic {
 	T operator|=(T v) { return fetch_or(v) | v; }
 	T operator&=(T v) { return fetch_and(v) & v; }
 	bool is_lock_free() const noexcept { return a.is_lock_free(); }
-	bool compare_exchange_weak(T &e, T d, std::memory_order s, std::memory_order f) { dsched::point(); bool ok = a.compare_exchange_strong(e, d, s, f); if(ok) hb.on_rmw(s); else hb.on_load(f); return ok; }
-	bool compare_exchange_strong(T &e, T d, std::memory_order s, std::memory_order f) { dsched::point(); bool ok = a.compare_exchange_strong(e, d, s, f); if(ok) hb.on_rmw(s); else hb.on_load(f); return ok; }
+	bool compare_exchange_weak(T &e, T d, std::memory_order s, std::memory_order f) { dsched::point(); vclock::mirror_write(&a, s); bool ok = a.compare_exchange_strong(e, d, s, f); if(ok) { hb.on_rmw(s); vclock::mirror_read(&a, s); } else { hb.on_load(f); vclock::mirror_read(&a, f); } return ok; }
+	bool compare_exchange_strong(T &e, T d, std::memory_order s, std::memory_order f) { dsched::point(); vclock::mirror_write(&a, s); bool ok = a.compare_exchange_strong(e, d, s, f); if(ok) { hb.on_rmw(s); vclock::mirror_read(&a, s); } else { hb.on_load(f); vclock::mirror_read(&a, f); } return ok; }
 	bool compare_exchange_weak(T &e, T d, std::memory_order m = std::memory_order_seq_cst) { return compare_exchange_weak(e, d, m, fail_order(m)); }
 	bool compare_exchange_strong(T &e, T d, std::memory_order m = std::memory_order_seq_cst) { return compare_exchange_strong(e, d, m, fail_order(m)); }
 	static constexpr std::memory_order fail_order(std::memory_order m) { return m == std::memory_order_acq_rel ? std::memory_order_acquire : m == std::memory_order_release ? std::memory_order_relaxed : m; }
 	operator T() const { return load(); }
 	T operator=(T v) { store(v); return v; }
 };
+// std::atomic_thread_fence, interposed with  #define atomic_thread_fence verif_atomic_thread_fence  (verif_atomic_begin.hpp)
+inline void verif_atomic_thread_fence(std::memory_order mo) noexcept { dsched::point(); std::atomic_thread_fence(mo); vclock::on_fence(mo); vclock::mirror_fence(mo); }
+inline void verif_atomic_signal_fence(std::memory_order mo) noexcept { std::atomic_signal_fence(mo); }
 }
